@@ -1,4 +1,5 @@
 import HeimdallModel.Model.NetAddr
+import HeimdallModel.Base.UrlEscape
 /-!
 # The request view of the HTTP entry points and the forwarded headers sent upstream
 
@@ -15,9 +16,12 @@ proxy rewriteRequest       (proxy only) forwarded family re-created for the upst
 `URL.RawQuery`, `TLS != nil`, `RemoteAddr`, and the header lines as they were on the wire (name casing untouched;
 the model canonicalises them like `textproto` does).
 
-`url.Parse(..).EscapedPath()` / `.Query().Encode()` applied to the value of `X-Forwarded-Uri` is a *parameter*
-(`UriParse`): every theorem holds for every such function; the correspondence check instantiates it with the graph
-of the real `net/url` on the values that occur.
+What `net/url` makes of the value of `X-Forwarded-Uri` (`url.Parse(..)`: `RawPath`, `EscapedPath()`, `RawQuery`) is a
+*parameter* (`UriParse`): every theorem holds for every such function; the correspondence check instantiates it with
+the graph of the real `net/url` on the values that occur.  Heimdall's own part is modelled: `escapedPath` of
+extract_url.go keeps the path **as received** (`Heimdall.receivedPath`: only octets that may not stand in a path become
+`%XX`, every escape of the client is kept; `EscapedPath()` when `RawPath` is empty), for the request line and for a
+believed `X-Forwarded-Uri` alike, and the query of a believed `X-Forwarded-Uri` is taken as received (`RawQuery`).
 -/
 namespace Heimdall.Fwd
 
@@ -83,6 +87,7 @@ def outDel : List String := ["X-Forwarded-Method", "X-Forwarded-Uri", "X-Forward
 structure Req where
   method     : String
   host       : String
+  rawPath    : String          -- URL.RawPath of the request line ("" when the default encoding of Path)
   escPath    : String          -- URL.EscapedPath() of the request line
   rawQuery   : String          -- URL.RawQuery of the request line
   tls        : Bool
@@ -90,8 +95,22 @@ structure Req where
   wire       : Headers         -- header lines as sent
 deriving DecidableEq, Repr
 
-/-- `url.Parse(v)` succeeded ⇒ `(EscapedPath(), Query().Encode())` -/
-abbrev UriParse := String → Option (String × String)
+/-- what `net/url` reports for a parsed reference -/
+structure UrlParts where
+  rawPath  : String            -- URL.RawPath
+  escPath  : String            -- URL.EscapedPath()
+  rawQuery : String            -- URL.RawQuery
+deriving DecidableEq, Repr
+
+/-- `url.Parse(v)`: `none` when it fails -/
+abbrev UriParse := String → Option UrlParts
+
+/-- `escapedPath` of extract_url.go: the path in the spelling it was received in -/
+def pathAsReceived (rawPath escPath : String) : String :=
+  if rawPath = "" then escPath else Heimdall.receivedPath rawPath
+
+/-- the path of the request line as the view shows it -/
+def Req.path (r : Req) : String := pathAsReceived r.rawPath r.escPath
 
 structure View where
   method  : String
@@ -112,10 +131,15 @@ def effective (names : List String) (proxies : List String) (r : Req) : Headers 
 
 def extractMethod (h : Headers) (r : Req) : String := orElse (hget h "X-Forwarded-Method") r.method
 
-/-- escaped path and encoded query offered by `X-Forwarded-Uri` (both `""` when absent or not parsable) -/
-def forwardedUri (parse : UriParse) (h : Headers) : String × String :=
-  let v := hget h "X-Forwarded-Uri"
-  if v = "" then ("", "") else (parse v).getD ("", "")
+/-- path and query offered by a value of `X-Forwarded-Uri`, both as received (both `""` when the value is empty or
+    not parsable) -/
+def uriOffer (parse : UriParse) (v : String) : String × String :=
+  if v = "" then ("", "")
+  else match parse v with
+    | some u => (pathAsReceived u.rawPath u.escPath, u.rawQuery)
+    | none => ("", "")
+
+def forwardedUri (parse : UriParse) (h : Headers) : String × String := uriOffer parse (hget h "X-Forwarded-Uri")
 
 /-! ### `requestClientIPs` -/
 
@@ -146,7 +170,7 @@ def viewOf (parse : UriParse) (h : Headers) (r : Req) : View :=
   { method  := extractMethod h r
     scheme  := orElse (hget h "X-Forwarded-Proto") (proto r)
     host    := orElse (hget h "X-Forwarded-Host") r.host
-    rawPath := orElse fu.1 r.escPath
+    rawPath := orElse fu.1 r.path
     query   := orElse fu.2 r.rawQuery
     ips     := clientIPs h r }
 
